@@ -46,9 +46,9 @@ FORMATS = {10: "bool", 11: "uint8", 12: "uint16", 13: "uint32", 14: "uint64", 15
 CLASSES = ["G1", "Gk", "Gk99", "Gcur", "Gold", "Gsm", "G100", "G1000", "WK", "WA", "UA", "IG", "TR", "ST", "RL"]
 
 
-def entity_map():
+def entity_map(formats=None):
     chars = [{"iid": iid, "type": f"00{iid:06X}-0000-1000-8000-0026BB765291", "perms": ["pr", "ev"], "format": fmt, "value": None, "broadcast_events": True}
-             for iid, fmt in FORMATS.items()]
+             for iid, fmt in (formats or FORMATS).items()]
     info = {"iid": 1, "type": "0000003E-0000-1000-8000-0026BB765291", "characteristics": [
         {"iid": 2, "type": "00000023-0000-1000-8000-0026BB765291", "perms": ["pr"], "format": "string", "value": "sim"}]}
     return [{"aid": 1, "services": [info, {"iid": 9, "type": "0000FE00-0000-1000-8000-0026BB765291", "characteristics": chars}]}]
@@ -126,8 +126,9 @@ class World:
 def build_ad(w: World, klass: str, rng, arg=None):
     """-> (adv_id, payload bytes, expectation dict). Expectation decided by construction + reference model."""
     L = w.L
-    iid = rng.choice(list(FORMATS))
-    value, expected = encode_value(rng, FORMATS[iid])
+    fmts = getattr(w, "formats", FORMATS)
+    iid = rng.choice(list(fmts))
+    value, expected = encode_value(rng, fmts[iid])
     key, adv, n, inner = w.key, DEVICE_ID, L + 1, None
     if klass == "G1":
         n = L + 1
@@ -177,7 +178,7 @@ def build_ad(w: World, klass: str, rng, arg=None):
         b = bytearray(payload)
         b[arg // 8] ^= 1 << (arg % 8)
         payload = bytes(b)
-    return adv, payload, {"klass": klass, "n": n, "inner": inner, "iid": iid, "value": expected, "fmt": FORMATS[iid]}
+    return adv, payload, {"klass": klass, "n": n, "inner": inner, "iid": iid, "value": expected, "fmt": fmts[iid]}
 
 
 def reference_verdict(w: World, adv: bytes, payload: bytes):
@@ -213,6 +214,24 @@ def step(ctx, w: World, klass, rng, replay, arg=None) -> bool:
             ctx.violation(f"reload-raises-{type(ex).__name__}", f"load_pairing again from state {w.L}: {ex!r}", replay)
             return False
         ctx.count("pairing_reloads")
+        return True
+
+    if klass == "DB":
+        # the accessory's database is REPLACED (new configuration: characteristics added, removed, formats changed) - the way a
+        # re-fetch or a restore from the cache installs it. Broadcasts that follow are decoded against the database in force.
+        cur = dict(getattr(w, "formats", FORMATS))
+        kinds = ["bool", "uint8", "uint16", "uint32", "uint64", "int", "float"]
+        for iid in rng.sample(sorted(cur), 3):
+            cur[iid] = rng.choice([k for k in kinds if k != cur[iid]])
+        cur.pop(rng.choice(sorted(cur)))
+        cur[rng.choice([19, 20, 400])] = rng.choice(kinds)
+        try:
+            w.pairing.restore_accessories_state(entity_map(cur), (w.pairing.config_num or 1) + 1, w.pairing.broadcast_key, w.pairing.description.state_num)
+        except Exception as ex:  # noqa: BLE001
+            ctx.violation(f"database-replacement-raises-{type(ex).__name__}", f"restore_accessories_state from state {w.L}: {ex!r}", replay)
+            return False
+        w.formats = cur
+        ctx.count("accessory_databases_replaced")
         return True
 
     if klass == "GU":
@@ -309,8 +328,9 @@ async def burst_step(ctx, w: World, klass, rng, replay) -> bool:
     L = w.L
     if L + 2 > 0xFFFF:
         return True
-    iid = rng.choice(list(FORMATS))
-    value, expected = encode_value(rng, FORMATS[iid])
+    fmts = getattr(w, "formats", FORMATS)
+    iid = rng.choice(list(fmts))
+    value, expected = encode_value(rng, fmts[iid])
     ns = [L + 1, L + 1] if klass == "B2" else [L + 2, L + 1]
     payloads = {n: refb.seal(w.key, DEVICE_ID, n, refb.plaintext_for(n & 0xFFFF, iid, value)) for n in set(ns)}
     before_log = len(w.log)
@@ -433,6 +453,12 @@ def run(ctx) -> None:
                 if ctx.mine(idx):
                     await run_history(ctx, start, hist, ("unknown-iid", idx))
         for start in starts:
+            for hist in (("G1", "DB", "G1", "G1", "G1"), ("G1", "G1", "DB", "Gk", "G1", "DB", "G1", "G1"), ("DB", "G1", "G1")):
+                for rep in range(3):
+                    idx += 1
+                    if ctx.mine(idx):
+                        await run_history(ctx, start, hist, ("db", idx, rep))
+        for start in starts:
             for hist in (("B2",), ("B21",), ("G1", "B2", "Gcur"), ("B21", "Gold"), ("B2", "B21", "B2")):
                 idx += 1
                 if ctx.mine(idx):
@@ -454,7 +480,7 @@ def run(ctx) -> None:
         rng = ctx.rng("C18.random")
         for k in range(ctx.pick(640, 8000) // ctx.nshards):
             n = rng.randint(4, ctx.pick(14, 60))
-            hist = tuple(rng.choice(["G1", "G1", "G1", "Gk", "Gk99", "Gcur", "Gold", "Gold", "G100", "WK", "IG", "WA", "TR", "GU", "B2", "B21"]) for _ in range(n))
+            hist = tuple(rng.choice(["G1", "G1", "G1", "Gk", "Gk99", "Gcur", "Gold", "Gold", "G100", "WK", "IG", "WA", "TR", "GU", "B2", "B21", "DB"]) for _ in range(n))
             await run_history(ctx, rng.choice(starts + [rng.randrange(0, 65000)]), hist, ("r", ctx.shard, k))
         await asyncio.sleep(0)
 
